@@ -276,6 +276,20 @@ def fam_events(rng, tier):
     return out
 
 
+def fam_conflict(rng, tier):
+    """Histories with content conflicts (on the destination, on a later integration branch), resolved by the
+    author as the robot's message instructs, then merged / reset / declined."""
+    out = []
+    for casc in (['B3', 'D3s', 'F4'] if tier == 'thorough' else ['B3', 'D3s']):
+        for mode in MODES:
+            for where in ('origin', 'wbranch'):
+                for then in (['merge', 'reset', 'decline'] if tier == 'thorough' else ['merge', 'reset']):
+                    out.append(dict(id='conflict/%s/%s/%s/%s' % (casc, mode, where, then), world=world(casc, mode),
+                                    steps=[{"a": "conflict_script", "where": where, "then": then,
+                                            "seed": rng.randrange(10**6)}], dyn=True))
+    return out
+
+
 def fam_repeat(rng, tier):
     """C10: convergence, no spam, commands once, independence from what the instance processed before."""
     out = []
@@ -372,7 +386,8 @@ def fam_core(rng, tier):
 
 
 FAMILIES = dict(core=fam_core, lifecycle=fam_lifecycle, qstatus=fam_queue_status, drift=fam_skip_drift,
-                holds=fam_holds, reset=fam_reset, admin=fam_admin, events=fam_events, repeat=fam_repeat)
+                holds=fam_holds, reset=fam_reset, admin=fam_admin, events=fam_events, repeat=fam_repeat,
+                conflict=fam_conflict)
 
 
 def all_scenarios(seed, tier, only=None):
